@@ -10,8 +10,8 @@ open TapkeeVerif.Gen
 
 /-- Bound expressions occurring as predicate arguments / guards in `validate()`: C++ arithmetic over literals,
     `n_vectors`, `current_dimension` and the values of other parameters.  Typing follows C++: an operation on two
-    `int` operands is an `int` operation (truncating division), anything else is carried out in `double`, which the
-    model takes to be exact (DESIGN §9); `static_cast<IndexType>` truncates toward zero. -/
+    `int` operands is an `int` operation (exact; truncating division), anything else is carried out in `double`: the
+    exact result rounded to the nearest double (`XReal.round`); `static_cast<IndexType>` truncates toward zero. -/
 inductive BExpr where
   | intLit (i : Int)
   | realLit (q : Rat)
@@ -59,15 +59,15 @@ def BExpr.eval (env : BEnv) : BExpr → XReal
   | .param kw => env.val kw
   | .toInt a => XReal.trunc (a.eval env)
   | .toReal a => a.eval env
-  | .add a b => a.eval env + b.eval env
-  | .sub a b => a.eval env - b.eval env
-  | .mul a b => a.eval env * b.eval env
+  | .add a b => if a.isInt && b.isInt then a.eval env + b.eval env else XReal.round (a.eval env + b.eval env)
+  | .sub a b => if a.isInt && b.isInt then a.eval env - b.eval env else XReal.round (a.eval env - b.eval env)
+  | .mul a b => if a.isInt && b.isInt then a.eval env * b.eval env else XReal.round (a.eval env * b.eval env)
   | .div a b =>
       if a.isInt && b.isInt then                     -- int / int truncates
         match a.eval env, b.eval env with
         | .fin x, .fin y => .fin ((Int.tdiv x.num y.num : Int) : Rat)
         | _, _ => .nan
-      else a.eval env / b.eval env
+      else XReal.round (a.eval env / b.eval env)
   | .neg a => - a.eval env
 
 /-- predicates of tapkee/predicates.hpp with their template argument -/
@@ -117,6 +117,8 @@ structure VStep where
 inductive VStmt where
   | check (c : VStep)
   | guarded (lhs : BExpr) (cmp : Cmp) (rhs : BExpr) (c : VStep)
+  /-- `Parameter::create(name, value).checked().satisfies(pred)[.orThrow()];` - a check of a computed value -/
+  | checkValue (value : BExpr) (pred : Pred) (orThrow : Bool)
   deriving DecidableEq, Repr, Inhabited
 
 /-- events inside one statement of an `embed()` body, in evaluation order -/
